@@ -34,8 +34,9 @@ def write(prop, tier, seed, mod, merged, wall, known, n_unknown, inconclusive):
         "wall_s": round(float(wall), 2),
         "violations": int(n_unknown),
     }
-    os.makedirs(os.path.join(ROOT, "evidence"), exist_ok=True)
-    path = os.path.join(ROOT, "evidence", f"{prop}.json")
+    evdir = os.environ.get("GSVERIF_EVIDENCE_DIR") or os.path.join(ROOT, "evidence")
+    os.makedirs(evdir, exist_ok=True)
+    path = os.path.join(evdir, f"{prop}.json")
     try:
         import jsonschema
 
